@@ -87,6 +87,7 @@ fn choose(rng: &mut Rng, st: St, h: &HistGen, k: &Knobs, just_replied: bool) -> 
                 Op::Reply(rng.pick(&["5", "42", "hello", "", "1,2", "7:8", "abc"]).to_string())
             }
         }
+        St::Idle if rng.chance(1, 250) => Op::Line("NEW".into()),
         St::Idle => match rng.below(20) {
             0..=4 => Op::Line("RUN".into()),
             5..=12 => Op::Line(immediate(rng, h, k)),
@@ -101,9 +102,12 @@ fn choose(rng: &mut Rng, st: St, h: &HistGen, k: &Knobs, just_replied: bool) -> 
 }
 
 /// apply the history; returns counts of faults that actually fired
-fn apply_history(s: &mut Sess, history: &[Op], ctx: &mut Ctx, count: bool) -> Result<(), Violation> {
+/// Applies the history; returns the index of the last op that made the interpreter ask for its
+/// replacement (an accepted NEW line), if any.
+fn apply_history(s: &mut Sess, history: &[Op], ctx: &mut Ctx, count: bool) -> Result<Option<usize>, Violation> {
     let mut just_replied = false;
-    for op in history {
+    let mut last_new: Option<usize> = None;
+    for (idx, op) in history.iter().enumerate() {
         let before = s.state();
         if count {
             match op {
@@ -111,6 +115,7 @@ fn apply_history(s: &mut Sess, history: &[Op], ctx: &mut Ctx, count: bool) -> Re
                 Op::Break if before == St::Running => ctx.count("fault.break@running"),
                 Op::Break if before == St::Awaiting => ctx.count("fault.break@awaiting"),
                 Op::Line(t) if before == St::Idle && t == "RUN" => ctx.count("fault.rerun_mid_session"),
+                Op::Replace => ctx.count("fault.new+replace"),
                 Op::Line(t) if before == St::Idle && numbered(t) => ctx.count("fault.edit"),
                 Op::Line(t) if before == St::Idle && t == "CONT" => ctx.count("fault.cont"),
                 Op::Line(_) if before == St::Idle => ctx.count("fault.immediate_statement"),
@@ -126,8 +131,11 @@ fn apply_history(s: &mut Sess, history: &[Op], ctx: &mut Ctx, count: bool) -> Re
         if count && call.err().is_some() {
             ctx.count("reach.history_error");
         }
+        if call.state == St::NewReq {
+            last_new = Some(idx);
+        }
     }
-    Ok(())
+    Ok(last_new)
 }
 
 fn finish_and_run(s: &mut Sess, c: &Case, ctx: &mut Ctx) -> Result<Obs, Violation> {
@@ -152,7 +160,7 @@ fn finish_and_run(s: &mut Sess, c: &Case, ctx: &mut Ctx) -> Result<Obs, Violatio
     drive_run(s, Op::Line("RUN".into()), &cfg, ctx)
 }
 
-fn oracle(c: &Case, a: &mut Sess, ctx: &mut Ctx) -> Option<Violation> {
+fn oracle(c: &Case, a: &mut Sess, last_new: Option<usize>, ctx: &mut Ctx) -> Option<Violation> {
     // what is pending in A right before the final RUN (reach probes)
     let p = a.probe(false);
     if p.breakpoint.is_some() {
@@ -182,8 +190,8 @@ fn oracle(c: &Case, a: &mut Sess, ctx: &mut Ctx) -> Option<Violation> {
     };
     // B: fresh, only the stored lines (since A's last Replace), original order
     let mut b = Sess::new();
-    let start = c.history.iter().rposition(|op| matches!(op, Op::Replace)).map(|i| i + 1).unwrap_or(0);
-    // note: a Replace op only takes effect if it was legal; NEW is never generated, so `start` is 0 in practice
+    let start = last_new.map(|i| i + 1).unwrap_or(0);
+    // (a Replace op is only ever recorded right after NEW, when it is legal)
     for op in &c.history[start..] {
         if let Op::Line(t) = op {
             if numbered(t) {
@@ -211,7 +219,7 @@ impl Prop for C10 {
             rule: "Each run: a program from the C03/C07 grammar (INPUT, STOP on) is entered into interpreter A, followed by a PRNG-scheduled history of up to 60 protocol-legal host calls chosen in the live state: RUN (to completion, to failure, or broken at a random boundary incl. while awaiting input and between a reply and the tick that consumes it), immediate statements that assign, DIM, open FOR loops, GOSUB/GOTO into the program, READ, RESTORE, NEXT, RETURN, CONT, line edits/deletions, seeds, flag changes. Then A and a fresh B (given only the numbered lines, in order) get the same flags, seed, RUN, ticks and replies. Oracle: every record, request position, final error kind+line and the deep probe snapshot (variables, arrays incl. content hash, stacks, functions, data cursor, breakpoint, pending reply, RNG state) are equal. distinct_nontrivial = distinct history hashes among runs whose final RUN took >= 5 boundaries.",
             real: &["abasic-core Interpreter (RUN / reset_runtime_state, breakpoint, pending input, data cursor, functions, stacks)"],
             stub: &["the host (history and final run schedule)"],
-            assumptions: &["NEW is not part of histories (replacement is the host's job and yields a fresh interpreter by definition)"],
+            assumptions: &["after NEW + replacement, B receives only the lines entered since (the replacement interpreter is fresh by definition)"],
             reach: &[
                 "reach.history_leaves_breakpoint",
                 "reach.history_leaves_stack",
@@ -269,6 +277,7 @@ impl Prop for C10 {
         }
         let n = rng.usize(60);
         let mut just_replied = false;
+        let mut last_new: Option<usize> = None;
         let mut k2 = k.clone();
         k2.input = false;
         k2.stop = false;
@@ -285,6 +294,9 @@ impl Prop for C10 {
             let r = apply_history(&mut a, std::slice::from_ref(&op), ctx, true);
             just_replied = matches!(op, Op::Reply(_));
             history.push(op);
+            if let Ok(Some(_)) = r {
+                last_new = Some(history.len() - 1);
+            }
             if let Err(v) = r {
                 let c = Case {
                     history,
@@ -307,16 +319,17 @@ impl Prop for C10 {
                 Tier::Thorough => 1500,
             },
         };
-        let v = oracle(&c, &mut a, ctx);
+        let v = oracle(&c, &mut a, last_new, ctx);
         (c, v)
     }
 
     fn execute(c: &Case, ctx: &mut Ctx) -> Option<Violation> {
         let mut a = Sess::new();
-        if let Err(v) = apply_history(&mut a, &c.history, ctx, false) {
-            return Some(v);
-        }
-        oracle(c, &mut a, ctx)
+        let last_new = match apply_history(&mut a, &c.history, ctx, false) {
+            Ok(l) => l,
+            Err(v) => return Some(v),
+        };
+        oracle(c, &mut a, last_new, ctx)
     }
 
     fn shrink(c: &Case) -> Vec<Case> {
